@@ -43,15 +43,26 @@ def wrapper_text(prog, evlist):
         else:
             lines.append("sq%d(%s) :- subquery(%s, P)." % (i, args, goal))
         lines.append("query(sq%d(%s))." % (i, args))
+    if evlist and prog["queries"]:
+        # the same goal once more WITHOUT evidence, after the call with evidence (a subquery must not
+        # remember the evidence of an earlier subquery on the same goal)
+        q = prog["queries"][0]
+        args = ",".join(q[1] + ["P"])
+        lines.append("sqp0(%s) :- subquery(%s, P)." % (args, atom_str(q)))
+        lines.append("query(sqp0(%s))." % args)
     return " ".join(lines)
 
 
-def parse_results(res, prog):
+def parse_results(res, prog, prefix="sq"):
     """{'sq0(c,0.3)': 1.0} -> {'p(c)': 0.3}, list of problems"""
     got = {}
     problems = []
     for k, v in res.items():
-        m = re.match(r"^sq(\d+)\((.*)\)$", k.replace(" ", ""))
+        if prefix == "sq" and k.startswith("sqp"):
+            continue
+        m = re.match(r"^%s(\d+)\((.*)\)$" % prefix, k.replace(" ", ""))
+        if not m and prefix == "sqp":
+            continue
         if not m:
             problems.append("unexpected result key %s" % k)
             continue
@@ -111,6 +122,18 @@ def check(prog, evlist):
     for name, p in cond.items():
         if p > TOL and name not in got:
             return "missing-instance", "%s not returned, expected %.10g" % (name, p)
+    if evlist and prog["queries"]:
+        p0 = dict(prog, evidence=[], queries=[prog["queries"][0]])
+        ref0 = progcheck.reference(p0)
+        if ref0["kind"] == "answer" and not ref0["negcycle"] and progcheck.judge(p0, ref=ref0)[0] is None:
+            got0, problems = parse_results(out[1], prog, prefix="sqp")
+            for name, pv in got0.items():
+                if name in ref0["cond"] and abs(pv - ref0["cond"][name]) > TOL:
+                    return ("evidence-remembered", "subquery without evidence after one with evidence gives %s: %r, "
+                            "unconditional probability %.10g" % (name, pv, ref0["cond"][name]))
+            for name, p in ref0["cond"].items():
+                if p > TOL and name not in got0:
+                    return "evidence-remembered", "%s not returned by the later subquery without evidence" % name
     return None, ""
 
 
